@@ -46,12 +46,12 @@ class Gen:
         self.zip_maxsize = zip_maxsize
 
     # -- helpers --------------------------------------------------------
-    def _new(self, op, ups, kind, **params):
+    def _new(self, op, ups, vkind, **params):
         nid = 'n%d' % len(self.nodes)
         spec = {'id': nid, 'op': op, 'ups': list(ups)}
         spec.update(params)
         self.nodes.append(spec)
-        self.kind[nid] = kind
+        self.kind[nid] = vkind
         self.anc[nid] = set(ups).union(*[self.anc[u] for u in ups]) if ups else set()
         return nid
 
@@ -65,6 +65,9 @@ class Gen:
         if r.random() < 0.6:
             return cands[-1 - min(len(cands) - 1, int(r.expovariate(1.2)))]
         return r.choice(cands)
+
+    def _multi_cands(self):
+        return [n['id'] for n in self.nodes if n['op'] not in ('sink', 'sink_flush')]
 
     def _key_param(self, kind, allow_none=True):
         r = self.r
@@ -175,7 +178,7 @@ class Gen:
             self._new('sink_flush', [t], None, target=c)
             return c
         if op in ('union', 'zip', 'combine_latest', 'zip_latest'):
-            cands = [n['id'] for n in self.nodes if n['op'] not in ('sink', 'sink_flush')]
+            cands = self._multi_cands()
             k = r.choice([1, 2, 2, 2, 3]) if op in ('union', 'zip') else r.choice([2, 2, 3])
             k = min(k, len(cands))
             if k < 1 or (op in ('combine_latest', 'zip_latest') and k < 2):
@@ -303,12 +306,24 @@ def build_real(prog, log, calls, source_kwargs=None, fn_wrap=None):
     """Instantiate real streamz nodes.  Returns {id: node}.
 
     fn_wrap(node_id, kind, fn) may wrap user functions (fault injection)."""
+    S = {}
+    for spec in prog['nodes']:
+        n = build_node(spec, S, calls, fn_wrap, source_kwargs)
+        if log is not None:
+            log.name(n, spec['id'])
+        S[spec['id']] = n
+    for u, v in prog.get('extra_edges', []):
+        S[u].connect(S[v])
+    return S
+
+
+def build_node(spec, S, calls, fn_wrap=None, source_kwargs=None):
+    """one real node from its spec; S holds the nodes built so far"""
     import streamz
     from streamz import Stream
-    S = {}
     fw = fn_wrap or (lambda nid, kind, fn: fn)
     skw = source_kwargs or {}
-    for spec in prog['nodes']:
+    if True:
         op, nid = spec['op'], spec['id']
         ups = [S[u] for u in spec.get('ups', [])]
         if op == 'source':
@@ -391,9 +406,4 @@ def build_real(prog, log, calls, source_kwargs=None, fn_wrap=None):
             n = ups[0].sink(fw(nid, 'sink', flusher))
         else:
             raise ValueError(op)
-        if log is not None:
-            log.name(n, nid)
-        S[nid] = n
-    for u, v in prog.get('extra_edges', []):
-        S[u].connect(S[v])
-    return S
+    return n
